@@ -133,6 +133,12 @@ module Pos =
   | Coq_xI p0 -> S (size_nat p0)
   | Coq_xO p0 -> S (size_nat p0)
   | Coq_xH -> S O
+  (** val size : positive -> positive **)
+
+  let rec size = function
+  | Coq_xI p0 -> succ (size p0)
+  | Coq_xO p0 -> succ (size p0)
+  | Coq_xH -> Coq_xH
 
   (** val compare_cont : comparison -> positive -> positive -> comparison **)
 
